@@ -524,6 +524,35 @@ pub fn run() -> i32 {
             }
             st.distinct = st.evaluations;
         });
+        // key containers longer than the key length (Vec / slices are "at least N bytes"): the
+        // incremental object and the one-shot function are given the very same container; either
+        // may refuse it, but they must not silently key the hash differently
+        {
+            let mut st = Stats::new();
+            for klen in [32usize, 33, 40, 48, 64] {
+                for mlen in [0usize, 1, 128, 129, 300] {
+                    let key: Vec<u8> = (0..klen).map(|i| (i as u8).wrapping_mul(5).wrapping_add(1)).collect();
+                    let msg = message(seed, mlen);
+                    let (k1, k2, m1, m2) = (key.clone(), key.clone(), msg.clone(), msg.clone());
+                    let inc = guarded(AssertUnwindSafe(move || {
+                        let mut h = GenericHash::<32, 32>::new(Some(&k1)).ok()?;
+                        h.update(&m1[..m1.len() / 2]);
+                        h.update(&m1[m1.len() / 2..]);
+                        h.finalize_to_vec().ok()
+                    }));
+                    let one = guarded(AssertUnwindSafe(move || GenericHash::<32, 32>::hash_to_vec(&m2, Some(&k2)).ok()));
+                    let consistent = match (&inc, &one) {
+                        (Ok(Some(a)), Ok(Some(b))) => a == b,
+                        _ => true,
+                    };
+                    st.eval(&("oversize-key", klen, mlen), true, if consistent { "incremental==oneshot" } else { "incremental-differs" });
+                    if !consistent {
+                        st.fail(Fail { check: "C08.chunk".into(), signature: "C08/GhObject/oversize-key-container".into(), what: format!("GenericHash<32,32> with a {}-byte key container on a {}-byte message: incremental and one-shot results differ", klen, mlen), case: json!({"iface": "GhObject{keyed:true}", "n": mlen, "cuts": [mlen / 2]}) });
+                    }
+                }
+            }
+            ctx.absorb("oversize-key-containers", st);
+        }
         ctx.note("poly1305_limb_edge_operands", json!({"keys": rs.len() * 2, "messages": msgs.len(), "cuts": "every offset"}));
         ctx.absorb("poly1305-limb-edges", st);
     }
